@@ -212,6 +212,140 @@ theorem term_pos {inp : Input} {t : Term} {pos n : Nat} (hw : t.nonEmpty = true)
         unfold utf8Len; split <;> (try split) <;> (try split) <;> omega
       · simp at h
 
+theorem matchTag_bound {inp : Input} : ∀ (bs : List Nat) (pos : Nat), bs ≠ [] → matchTag inp pos bs = true →
+    pos + bs.length ≤ inp.size := by
+  intro bs
+  induction bs with
+  | nil => intro pos h; exact absurd rfl h
+  | cons b bs ih =>
+    intro pos _ h
+    simp only [matchTag, Bool.and_eq_true] at h
+    have h1 : pos < inp.size := by
+      have := h.1; unfold byteAt at this; split at this <;> simp_all
+    cases bs with
+    | nil => simp; omega
+    | cons c cs => have := ih (pos + 1) (by simp) h.2; simp at this ⊢; omega
+
+theorem matchTagNoCase_bound {inp : Input} : ∀ (bs : List Nat) (pos : Nat), bs ≠ [] →
+    matchTagNoCase inp pos bs = true → pos + bs.length ≤ inp.size := by
+  intro bs
+  induction bs with
+  | nil => intro pos h; exact absurd rfl h
+  | cons b bs ih =>
+    intro pos _ h
+    simp only [matchTagNoCase, Bool.and_eq_true] at h
+    have h1 : pos < inp.size := by
+      have := h.1
+      unfold byteAt at this
+      by_cases hp : pos < inp.size
+      · exact hp
+      · simp [hp] at this
+    cases bs with
+    | nil => simp; omega
+    | cons c cs => have := ih (pos + 1) (by simp) h.2; simp at this ⊢; omega
+
+theorem spanLen_le {inp : Input} (p : Nat → Bool) : ∀ fuel pos, spanLen inp p fuel pos ≤ fuel := by
+  intro fuel
+  induction fuel with
+  | zero => intro pos; simp [spanLen]
+  | succ n ih =>
+    intro pos
+    simp only [spanLen]
+    split
+    · split
+      · have := ih (pos + 1); omega
+      · omega
+    · omega
+
+theorem takeChars_bound {inp : Input} : ∀ (k pos m : Nat), pos ≤ inp.size → takeChars inp k pos = some m →
+    pos + m ≤ inp.size := by
+  intro k
+  induction k with
+  | zero => intro pos m hp h; simp [takeChars] at h; omega
+  | succ k ih =>
+    intro pos m hp h
+    simp only [takeChars] at h
+    split at h
+    · simp at h
+    · rename_i b hb
+      split at h
+      · rename_i hle
+        split at h
+        · rename_i m' hm'
+          simp at h
+          have := ih _ m' hle hm'
+          omega
+        · simp at h
+      · simp at h
+
+theorem term_bound {inp : Input} {t : Term} {pos n : Nat} (h : matchTerm inp t pos = some n) :
+    n = 0 ∨ pos + n ≤ inp.size := by
+  have nz : ∀ (p : Nat → Bool) m, nonZero (spanLen inp p (inp.size - pos) pos) = some m → pos + m ≤ inp.size := by
+    intro p m hk
+    unfold nonZero at hk
+    split at hk
+    · simp at hk
+    · simp at hk
+      have := spanLen_le (inp := inp) p (inp.size - pos) pos
+      have hpos : 0 < spanLen inp p (inp.size - pos) pos := by omega
+      omega
+  cases t with
+  | tag bs =>
+    simp only [matchTerm] at h; split at h <;> simp at h
+    subst h
+    cases bs with
+    | nil => left; rfl
+    | cons b bs => right; exact matchTag_bound _ _ (by simp) (by assumption)
+  | tagNoCase bs =>
+    simp only [matchTerm] at h; split at h <;> simp at h
+    subst h
+    cases bs with
+    | nil => left; rfl
+    | cons b bs => right; exact matchTagNoCase_bound _ _ (by simp) (by assumption)
+  | isA set => right; exact nz _ _ (by simpa [matchTerm] using h)
+  | isNot set => right; exact nz _ _ (by simpa [matchTerm] using h)
+  | oneOf set =>
+    simp only [matchTerm] at h; split at h
+    · rename_i b hb
+      split at h <;> simp at h
+      subst h; right
+      unfold byteAt at hb; split at hb <;> simp_all; omega
+    · simp at h
+  | noneOf set =>
+    simp only [matchTerm] at h; split at h
+    · split at h
+      · simp at h
+      · split at h <;> simp at h
+        subst h; right; assumption
+    · simp at h
+  | take k =>
+    simp only [matchTerm] at h
+    by_cases hp : pos ≤ inp.size
+    · right; exact takeChars_bound k pos n hp h
+    · cases k with
+      | zero => simp [takeChars] at h; left; omega
+      | succ k =>
+        simp only [takeChars] at h
+        split at h
+        · simp at h
+        · rename_i b hb
+          unfold byteAt at hb; split at hb <;> simp_all; omega
+  | digit1 => right; exact nz _ _ (by simpa [matchTerm] using h)
+  | alpha1 => right; exact nz _ _ (by simpa [matchTerm] using h)
+  | alphanumeric1 => right; exact nz _ _ (by simpa [matchTerm] using h)
+  | hexDigit1 => right; exact nz _ _ (by simpa [matchTerm] using h)
+  | space1 => right; exact nz _ _ (by simpa [matchTerm] using h)
+  | multispace1 => right; exact nz _ _ (by simpa [matchTerm] using h)
+  | anychar =>
+    simp only [matchTerm] at h
+    by_cases hp : pos ≤ inp.size
+    · right; exact takeChars_bound 1 pos n hp h
+    · simp only [takeChars] at h
+      split at h
+      · simp at h
+      · rename_i b hb
+        unfold byteAt at hb; split at hb <;> simp_all; omega
+
 end Sv
 
 namespace Sv
@@ -245,7 +379,11 @@ theorem allSpec_succ (g : Grammar) (inp : Input) (hg : GrammarWF g) (n : Nat) (i
       · rename_i k hk
         refine ⟨hi, fun hw => ?_, fun hs => by simp [Still] at hs⟩
         have := term_pos (by simpa [WF] using hw) hk
-        simp [TilesO, TilesF, leavesL, leaves, Chain, this]
+        have hb : pos + k ≤ inp.size := by
+          rcases term_bound hk with h0 | h0
+          · omega
+          · exact h0
+        simp [TilesO, TilesF, leavesL, leaves, Chain, this, hb]
       · exact Spec.err hi
     | eof =>
       simp only [eval]
